@@ -20,6 +20,7 @@ theorem safe_fnOfOpd (s : RSt) (o : Opd) (h : ∀ r ∈ opdRegs o, Defined s.fr.
   | ext n => exact Safe.bind (safe_readWord _ _ h) (fun _ => Safe.ok _)
   | none => exact Safe.bind (safe_readWord _ _ h) (fun _ => Safe.ok _)
   | bad => exact Safe.bind (safe_readWord _ _ h) (fun _ => Safe.ok _)
+  | up i => exact Safe.bind (safe_readWord _ _ h) (fun _ => Safe.ok _)
 
 theorem fnOfOpd_reg {s : RSt} {r g : Nat} (h : fnOfOpd s (.reg r) = .ok g) : ∃ x, readWord s (.reg r) = .ok x ∧ x.toNat = g := by
   simp only [fnOfOpd, Bind.bind, Except.bind] at h
@@ -141,6 +142,7 @@ theorem safe_stepCore {callF : CallF} {P : Prog} (hcall : CallSafe callF) (i : I
         | ext n => simp [fnOfOpd, Bind.bind, Except.bind, readWord, readOpd, regOf] at hg
         | none => simp [fnOfOpd, Bind.bind, Except.bind, readWord, readOpd, regOf] at hg
         | bad => simp [fnOfOpd, Bind.bind, Except.bind, readWord, readOpd, regOf] at hg
+        | up i => simp [fnOfOpd, Bind.bind, Except.bind, readWord, readOpd, regOf] at hg
       exact Safe.bind (safe_newClosure P s g hdef) (fun _ => Safe.ok _)
   | storeFn p g =>
     simp only [wfIns, Bool.and_eq_true] at hwf
@@ -207,6 +209,7 @@ theorem safe_stepCore {callF : CallF} {P : Prog} (hcall : CallSafe callF) (i : I
     | fn i => exact hind _ (fun r' hr' => by simp [opdRegs] at hr')
     | none => exact hind _ (fun r' hr' => by simp [opdRegs] at hr')
     | bad => exact hind _ (fun r' hr' => by simp [opdRegs] at hr')
+    | up i => exact hind _ (fun r' hr' => by simp [opdRegs] at hr')
   | _ =>
     refine safe_stepCore_simple _ s rfl (fun r hr => hD r (subsetB_mem ?_ r hr))
     simpa [wfIns] using hwf
